@@ -83,9 +83,17 @@ def run_one(prop, base_seed, index, tier, mask, want_raw=False, want_digest=Fals
             small["unshrunk_divergence"] = verdict["divergence"]
             out["violation"] = small
         elif want_raw and mask:
-            raw = spec.check_raw(case, _CACHE)
-            out["raw_divergence"] = None if raw is None else {"kind": raw["kind"], "at": raw["at"],
-                                                              "m": (raw.get("op") or {}).get("m")}
+            # informational execution without neutralisers (counts how often the recorded findings are met); the
+            # built-in solver need not terminate on a state the recorded write-back left behind – no verdict hangs on it
+            try:
+                raw = spec.check_raw(case, _CACHE)
+            except procs.ChildTimeout:
+                if engine.raw_timeout(case["ops"]) is None:
+                    raise
+                out["raw_inconclusive"] = "builtin-solver-timeout"
+            else:
+                out["raw_divergence"] = None if raw is None else {"kind": raw["kind"], "at": raw["at"],
+                                                                  "m": (raw.get("op") or {}).get("m")}
         if index % 50 == 0:
             out["sample"] = case["ops"]
     except procs.HarnessError as e:
